@@ -19,6 +19,13 @@ def small_data(s, r, lo=-3, hi=4):
     return [[r.randint(lo, hi) for _ in range(prod(s))]]
 
 
+def prod_data(s, r):
+    """data for multiplicative folds: ones with at most ten entries from {2, 3, -1, -2}, so that every product stays far below 2^31 (TLC integers)"""
+    n = prod(s); d = [1] * n
+    for p in r.sample(range(n), min(n, 10)): d[p] = r.choice([2, 3, -1, -2, 1])
+    return [d]
+
+
 def group_size(s, axis):
     if not axis: return prod(s)
     d = len(s)
@@ -53,7 +60,7 @@ def table(D, E, ck):
                 for i, op in enumerate(RED[1:] + ALIAS):
                     kd = "FTft"[(i + len(s)) % 4]
                     init = [] if (i + sum(s)) % 2 else [2]
-                    cases.append(dict(op=op, shapes=[s], args=dict(af, initial=init, keepdims=kd), data=small_data(s, r, 1, 3) if "multiply" in op or op == "prod" else small_data(s, r)))
+                    cases.append(dict(op=op, shapes=[s], args=dict(af, initial=init, keepdims=kd), data=prod_data(s, r) if "multiply" in op or op == "prod" else small_data(s, r)))
                 n = group_size(s, af["axis"])
                 dat = small_data(s, r, -4, 6)
                 cases.append(dict(op="mean", shapes=[s], args=dict(af, initial=[], keepdims="F", mul=n), data=dat))
@@ -62,7 +69,7 @@ def table(D, E, ck):
                 cases.append(dict(op="vector_norm", shapes=[s], args=dict(af, initial=[], keepdims="F", mul=1), data=dat))
             for ax in range(-d, d):
                 for op in ACC:
-                    cases.append(dict(op=op, shapes=[s], args=dict(axis=ax), data=small_data(s, r, 1, 3) if ("multiply" in op or op == "cumprod") else small_data(s, r)) if op != "accumulate_mix"
+                    cases.append(dict(op=op, shapes=[s], args=dict(axis=ax), data=prod_data(s, r) if ("multiply" in op or op == "cumprod") else small_data(s, r)) if op != "accumulate_mix"
                                  else dict(op=op, shapes=[s], args=dict(axis=ax)))
     return cases
 
